@@ -3,6 +3,7 @@ package harness
 import (
 	"context"
 	"fmt"
+	"time"
 
 	"github.com/bartossh/Computantis/src/accountant"
 	"github.com/bartossh/Computantis/src/gossip"
@@ -123,27 +124,73 @@ func (w *World) doInject(i int, s *Step, n *Node, res *StepResult) {
 	if s.K > 0 && s.K <= len(w.Nodes) {
 		sealer = w.Nodes[s.K-1].W // sealed with an honest node's key (that node is byzantine in this step)
 	}
+	var parent *accountant.Vertex
+	if s.Via == "ahead" {
+		// the crafted vertex overtakes its own parent: P (a valid contract on the current tips) is
+		// built first, the vertex is built on P and delivered before P
+		ps := Step{Kind: "valid", From: s.From, To: s.To, Data: 8 + s.Data}
+		pv, err := w.craft(n, &ps, sealer)
+		if err != nil || pv.Transaction.IssuerAddress == sealer.Address() {
+			res.Err = "craft parent"
+			res.Done = true
+			return
+		}
+		parent = pv
+		w.Archive.addVertex(pv, "crafted")
+		w.Crafted = append(w.Crafted, *pv)
+	}
 	v, err := w.craft(n, s, sealer)
 	if err != nil {
 		res.Err = "craft: " + err.Error()
 		res.Done = true
 		return
 	}
+	if parent != nil {
+		nv, err := accountant.NewVertex(v.Transaction, parent.Hash, parent.Hash, parent.Weight+1, sealer)
+		if err != nil {
+			res.Err = "craft: " + err.Error()
+			res.Done = true
+			return
+		}
+		v = &nv
+	}
 	w.Archive.addVertex(v, "crafted")
 	w.Crafted = append(w.Crafted, *v)
 	res.Vertex, res.HasVrx, res.Trx = v.Hash, true, v.Transaction.Hash
 	before := w.snapshot(n)
-	msg := &pb.VrxMsgGossip{Vertex: gossip.VerifVertexToProto(v), Gossipers: []*pb.Gossiper{signedGossiper(sealer, v.Hash)}}
-	w.spawnOp(fmt.Sprintf("adv->n%d:inject#%d", n.Idx, i), n, res, func(ctx context.Context) error {
-		req := &pb.VrxMsgGossip{}
-		if err := roundTrip(msg, req); err != nil {
-			return err
-		}
-		return w.Net.deliver(ctx, -1, n, "GossipVrx", v.Hash, gossiperAddrs(req.Gossipers), false, func(c context.Context) error {
-			_, e := n.Goss.Server().GossipVrx(c, req)
-			return e
+	send := func(tag string, vx *accountant.Vertex, r *StepResult) {
+		msg := &pb.VrxMsgGossip{Vertex: gossip.VerifVertexToProto(vx), Gossipers: []*pb.Gossiper{signedGossiper(sealer, vx.Hash)}}
+		w.spawnOp(fmt.Sprintf("adv->n%d:%s#%d", n.Idx, tag, i), n, r, func(ctx context.Context) error {
+			req := &pb.VrxMsgGossip{}
+			if err := roundTrip(msg, req); err != nil {
+				return err
+			}
+			return w.Net.deliver(ctx, -1, n, "GossipVrx", vx.Hash, gossiperAddrs(req.Gossipers), false, func(c context.Context) error {
+				_, e := n.Goss.Server().GossipVrx(c, req)
+				return e
+			})
 		})
-	})
+	}
+	send("inject", v, res)
+	if parent != nil {
+		if !w.waitOps(opBudget) {
+			w.violate("C08", "no-return", "gossip-add", n.Idx, "gossip add did not return within %v", opBudget)
+			return
+		}
+		w.probe("c10-vertex-offered-ahead-of-its-parent")
+		var pres StepResult
+		send("inject-parent", parent, &pres)
+		if !w.waitOps(opBudget) {
+			w.violate("C08", "no-return", "gossip-add", n.Idx, "gossip add did not return within %v", opBudget)
+			return
+		}
+		// two retry ticks: the parked vertex is replayed now that its parent is there
+		tick := time.Duration(accountant.VerifConstants()["repeaterTickNS"])
+		if tick <= 0 {
+			tick = 2 * time.Second
+		}
+		simrt.SleepFor(2*tick + 100*time.Millisecond)
+	}
 	if s.NoWait {
 		return
 	}
@@ -154,6 +201,11 @@ func (w *World) doInject(i int, s *Step, n *Node, res *StepResult) {
 	after := w.snapshot(n)
 	if after != nil {
 		w.checkSnap(after)
+	}
+	if parent != nil && after != nil {
+		if _, in := after.Live[parent.Hash]; in {
+			w.probe("c10-overtaken-parent-admitted-later")
+		}
 	}
 	mustReject := s.Kind == "self-sealed" || s.Kind == "genesis-issuer" || s.Kind == "empty"
 	if mustReject && before != nil && after != nil {
